@@ -67,6 +67,10 @@ async fn read_frame(sock: &mut TcpStream) -> Option<(i16, u8, Vec<u8>)> {
 impl Node {
     async fn start(nr_shards: u16) -> Node {
         let listener = TcpListener::bind("127.0.0.1:0").await.unwrap();
+        Self::start_with(listener, nr_shards).await
+    }
+
+    async fn start_with(listener: TcpListener, nr_shards: u16) -> Node {
         let addr = listener.local_addr().unwrap();
         let st = Arc::new(Mutex::new(NodeSt::default()));
         let refuse = Arc::new(AtomicBool::new(false));
@@ -209,7 +213,59 @@ fn parse(script: &str) -> Option<Vec<Step>> {
     Some(steps)
 }
 
+fn gen_reconnect(rng: &mut Rng, quick: bool, emit: &mut dyn FnMut(String)) {
+    let ms = 1_000_000u64;
+    let day = 86_400_000u64 * ms;
+    for i in 0..(if quick { 300 } else { 6000 }) {
+        let (min, max) = match rng.below(6) {
+            0 => (50 * ms, 10_000 * ms), // production defaults
+            1 => (ms, 2 * ms),
+            2 => (ms, 30 * day),
+            3 => (1, 1u64 << 60),
+            4 => {
+                let m = rng.range(1, 1000) as u64 * ms;
+                (m, m)
+            }
+            _ => {
+                let a = 1u64 << rng.below(50);
+                (a, a.saturating_mul(1 + rng.below(1 << 20)).min(1 << 60))
+            }
+        };
+        let (jlo, jhi) = match rng.below(5) {
+            0 => (850_000u64, 1_150_000u64),
+            1 => (1_000_000, 1_000_000),
+            2 => (0, 3_000_000),
+            3 => (1_000_001, 1_500_000),
+            _ => {
+                let lo = rng.below(2_000_000);
+                (lo, lo + rng.below(2_000_000))
+            }
+        };
+        let mut ops: Vec<String> = Vec::new();
+        for _ in 0..rng.range(2, 8) {
+            match rng.below(10) {
+                // long runs of failed fills: far beyond the 64 doublings that exhaust a u64 of seconds
+                0..=4 => ops.push(format!("e{}", *rng.pick(&[1u32, 2, 5, 30, 63, 64, 65, 69, 70, 128, 500, 1000]))),
+                5 => ops.push("s".into()),
+                _ => {}
+            }
+            ops.push("d".into());
+        }
+        if i % 4 == 3 {
+            emit(format!("rp const/{}/{}/{} {}", min, jlo, jhi, ops.join(";")));
+        } else {
+            emit(format!("rp exp/{}/{}/{}/{} {}", min, max, jlo, jhi, ops.join(";")));
+        }
+    }
+    // the node is down for hundreds of refill attempts, then comes back
+    for _ in 0..(if quick { 3 } else { 20 }) {
+        let min = rng.range(1, 2) as u64;
+        emit(format!("poolr {}/{}/{}/{}", min, min + rng.below(2), *rng.pick(&[300u64, 500, 700]), rng.range(1, 3)));
+    }
+}
+
 pub fn generate(rng: &mut Rng, quick: bool, emit: &mut dyn FnMut(String)) {
+    gen_reconnect(rng, quick, emit);
     for i in 0..(if quick { 48 } else { 500 }) {
         let nr = if i % 3 == 2 { *rng.pick(&[2u16, 3]) } else { 0 };
         let k = if nr == 0 { rng.range(2, 4) as usize } else { 1 };
@@ -339,6 +395,152 @@ pub fn run(cfg: &str, script: &str, ctx: &mut Ctx) -> String {
             }
         }
         out.join(",")
+    });
+    rt.shutdown_timeout(Duration::from_millis(200));
+    out
+}
+
+
+// ------------------------------------------------------------------------------------------------
+// reconnect policies (C10: the refiller keeps trying for ever, so connections are re-established)
+// ------------------------------------------------------------------------------------------------
+
+/// `rp exp/<min ns>/<max ns>/<jitter lo ppm>/<jitter hi ppm> <op>;…` and `rp const/<delay ns>/<lo ppm>/<hi ppm> <op>;…`
+/// with ops `e<n>` (n failed fills), `s` (a successful fill), `d` (get_delay): the REAL policy session, every call
+/// under `catch_unwind`. Output: the delays observed by the `d` ops in ns, `PANIC@<op index>` if a call panicked.
+/// ORACLE (from the property: the refiller must be able to go on for ever): no call panics, and an exponential
+/// session's delay lies within its limits - whatever the history.
+pub fn run_rp(cfg: &str, script: &str, ctx: &mut Ctx) -> String {
+    use scylla::verif_hooks::reconnect::{ConstantReconnectPolicy, ExponentialReconnectPolicy, ReconnectPolicy};
+    let parts: Vec<&str> = cfg.split('/').collect();
+    let nums: Option<Vec<u64>> = parts.iter().skip(1).map(|x| x.parse::<u64>().ok()).collect();
+    let Some(nums) = nums else { return "bad-case".into() };
+    let dur = |ns: u64| Duration::from_nanos(ns);
+    let (policy, limits): (Box<dyn ReconnectPolicy>, Option<(u64, u64)>) = match (parts.first().copied(), nums.as_slice()) {
+        (Some("exp"), [min, max, jlo, jhi]) if min <= max && jlo <= jhi && *max <= 1u64 << 60 && *jhi <= 100_000_000 => (
+            Box::new(
+                ExponentialReconnectPolicy::new()
+                    .with_backoff_limits(dur(*min), dur(*max))
+                    .with_jitter_range(*jlo as f64 / 1e6..=*jhi as f64 / 1e6),
+            ),
+            Some((*min, *max)),
+        ),
+        (Some("const"), [delay, jlo, jhi]) if jlo <= jhi && *delay <= 1u64 << 60 && *jhi <= 100_000_000 => (
+            Box::new(ConstantReconnectPolicy::new(dur(*delay)).with_jitter_range(*jlo as f64 / 1e6..=*jhi as f64 / 1e6)),
+            None,
+        ),
+        _ => return "bad-case".into(),
+    };
+    let mut session = policy.new_session();
+    let mut out: Vec<String> = Vec::new();
+    for (idx, op) in script.split(';').filter(|o| !o.is_empty()).enumerate() {
+        let (k, rest) = (op.get(..1).unwrap_or(""), op.get(1..).unwrap_or(""));
+        let res = match k {
+            "e" => {
+                let Some(n) = rest.parse::<u32>().ok().filter(|n| *n <= 100_000) else { return "bad-case".into() };
+                std::panic::catch_unwind(std::panic::AssertUnwindSafe(|| {
+                    for _ in 0..n {
+                        session.on_fill_error();
+                    }
+                    None
+                }))
+            }
+            "s" if rest.is_empty() => std::panic::catch_unwind(std::panic::AssertUnwindSafe(|| {
+                session.on_successful_fill();
+                None
+            })),
+            "d" if rest.is_empty() => std::panic::catch_unwind(std::panic::AssertUnwindSafe(|| Some(session.get_delay()))),
+            _ => return "bad-case".into(),
+        };
+        match res {
+            Err(_) => {
+                ctx.fail(format!(
+                    "the reconnect policy session panicked in op {} (`{}`): the pool's refiller task would die and the node would never be reconnected",
+                    idx, op
+                ));
+                out.push(format!("PANIC@{}", idx));
+                break;
+            }
+            Ok(Some(d)) => {
+                let ns = d.as_nanos();
+                if let Some((min, max)) = limits {
+                    if ns < min as u128 || ns > max as u128 {
+                        ctx.fail(format!("get_delay answered {} ns outside the configured limits [{}, {}]", ns, min, max));
+                    }
+                }
+                out.push(ns.to_string());
+            }
+            Ok(None) => {}
+        }
+    }
+    if out.is_empty() { "-".into() } else { out.join(",") }
+}
+
+/// `poolr <min ms>/<max ms>/<down ms>/<k>`: a real pool (PerHost(k), exponential reconnect policy scaled to
+/// min..max ms, jitter 0.85..1.15 as in production) whose node is DOWN - nothing listens on its address - for
+/// `down ms` (hundreds of refill attempts), then the node appears.
+/// ORACLE (the property's clause "the session keeps working through ... re-established connections"): within a
+/// bounded time after the node is back the pool is connected again and every request is served.
+pub fn run_poolr(cfg: &str, ctx: &mut Ctx) -> String {
+    use scylla::verif_hooks::reconnect::ExponentialReconnectPolicy;
+    let nums: Option<Vec<u64>> = cfg.split('/').map(|x| x.parse::<u64>().ok()).collect();
+    let Some(nums) = nums else { return "bad-case".into() };
+    let [min, max, down, k] = nums.as_slice() else { return "bad-case".into() };
+    let (min, max, down, k) = (*min, *max, *down, *k as usize);
+    if min == 0 || min > max || max > 1000 || down > 5000 || k == 0 || k > 8 {
+        return "bad-case".into();
+    }
+    let rt = tokio::runtime::Builder::new_multi_thread().worker_threads(2).enable_all().build().unwrap();
+    let out = rt.block_on(async {
+        // an address where nothing listens: the port is BOUND (so that nobody else on this machine can take it) but
+        // not listening - connections to it are refused
+        let sock = tokio::net::TcpSocket::new_v4().unwrap();
+        sock.bind("127.0.0.1:0".parse().unwrap()).unwrap();
+        let addr = sock.local_addr().unwrap();
+        let policy = Arc::new(
+            ExponentialReconnectPolicy::new().with_backoff_limits(Duration::from_millis(min), Duration::from_millis(max)),
+        );
+        let Ok(pool) = VerifPool::new_with(
+            addr,
+            PoolSize::PerHost(NonZeroUsize::new(k).unwrap()),
+            None,
+            false,
+            None,
+            Some(Duration::from_millis(500)),
+            Some(policy),
+        ) else {
+            return "bad-case".to_owned();
+        };
+        pool.wait_until_initialized().await;
+        tokio::time::sleep(Duration::from_millis(down)).await;
+        let c_down = pool.connection_count().unwrap_or(0);
+        // the node comes up on that very address
+        let listener = sock.listen(1024).unwrap();
+        let node = Node::start_with(listener, 0).await;
+        let t0 = std::time::Instant::now();
+        while t0.elapsed() < Duration::from_secs(6) {
+            if pool.connection_count().unwrap_or(0) == k && node.live() == k {
+                break;
+            }
+            tokio::time::sleep(Duration::from_millis(5)).await;
+        }
+        let c = pool.connection_count().unwrap_or(0);
+        if c != k {
+            ctx.fail(format!(
+                "the node has been back for 6 s after {} ms of refused connections, but the pool holds {} of {} connections: connections are not re-established",
+                down, c, k
+            ));
+        }
+        let mut ok = 0;
+        for j in 0..5 {
+            if matches!(pool.query_on_random(&format!("SELECT {}", j)).await, Ok((_, true))) {
+                ok += 1;
+            }
+        }
+        if c > 0 && ok != 5 {
+            ctx.fail(format!("{} of 5 requests failed after the node came back", 5 - ok));
+        }
+        format!("down={},c={},q={}/5", c_down, c, ok)
     });
     rt.shutdown_timeout(Duration::from_millis(200));
     out
